@@ -41,6 +41,25 @@ class Impl:
         x = copy.deepcopy(x)
         if how == "conv":
             return self.n0dict.convert_recursively(x)
+        if how == "graft":
+            # converted operands into which plain dictionaries were stored afterwards (rec["sub"] = {...}): every dictionary
+            # held directly by a record of a list is a plain dict again (its own content stays as converted)
+            t = self.n0dict.convert_recursively(x)
+
+            def graft(node):
+                if isinstance(node, dict):
+                    for v in dict.values(node):
+                        graft(v)
+                elif isinstance(node, list):
+                    for rec in list.__iter__(node):
+                        if isinstance(rec, dict):
+                            for k in list(dict.keys(rec)):
+                                v = dict.__getitem__(rec, k)
+                                if isinstance(v, dict):
+                                    dict.__setitem__(rec, k, dict(dict.items(v)))
+                        graft(rec)
+            graft(t)
+            return t
         if isinstance(x, dict):
             return self.n0dict(x)
         return self.n0list(x)
